@@ -257,3 +257,55 @@ vp_table!(vp_g_table_r128, crate::edwards::EdwardsBasepointTableRadix128);
 #[cfg(feature = "precomputed-tables")]
 vp_table!(vp_g_table_r256, crate::edwards::EdwardsBasepointTableRadix256);
 include!(concat!(env!("VERIF_HOOK_DIR"), "/../kani/curve_kani.rs"));
+
+// ------------------------------------------------------------------ constant accessors (C12)
+pub mod consts {
+    use super::*;
+    use crate::constants as k;
+    macro_rules! acc { ($name:ident, $t:ty, $e:expr) => { #[no_mangle] #[inline(never)] pub fn $name() -> &'static $t { &$e } } }
+    acc!(vp_c_minus_one, FieldElement, k::MINUS_ONE);
+    acc!(vp_c_fe_minus_one, FieldElement, FieldElement::MINUS_ONE);
+    acc!(vp_c_fe_one, FieldElement, FieldElement::ONE);
+    acc!(vp_c_fe_zero, FieldElement, FieldElement::ZERO);
+    acc!(vp_c_edwards_d, FieldElement, k::EDWARDS_D);
+    acc!(vp_c_edwards_d2, FieldElement, k::EDWARDS_D2);
+    acc!(vp_c_one_minus_d_sq, FieldElement, k::ONE_MINUS_EDWARDS_D_SQUARED);
+    acc!(vp_c_d_minus_one_sq, FieldElement, k::EDWARDS_D_MINUS_ONE_SQUARED);
+    acc!(vp_c_sqrt_ad_minus_one, FieldElement, k::SQRT_AD_MINUS_ONE);
+    acc!(vp_c_invsqrt_a_minus_d, FieldElement, k::INVSQRT_A_MINUS_D);
+    acc!(vp_c_sqrt_m1, FieldElement, k::SQRT_M1);
+    acc!(vp_c_aplus2_over_four, FieldElement, k::APLUS2_OVER_FOUR);
+    acc!(vp_c_montgomery_a, FieldElement, k::MONTGOMERY_A);
+    acc!(vp_c_montgomery_a_neg, FieldElement, k::MONTGOMERY_A_NEG);
+    acc!(vp_c_l, US, k::L);
+    acc!(vp_c_r, US, k::R);
+    acc!(vp_c_rr, US, k::RR);
+    #[cfg(curve25519_dalek_bits = "64")]
+    #[no_mangle] #[inline(never)] pub fn vp_c_lfactor() -> u64 { k::LFACTOR }
+    #[cfg(curve25519_dalek_bits = "32")]
+    #[no_mangle] #[inline(never)] pub fn vp_c_lfactor() -> u64 { k::LFACTOR as u64 }
+    acc!(vp_c_basepoint_order, Scalar, k::BASEPOINT_ORDER);
+    acc!(vp_c_basepoint, EdwardsPoint, k::ED25519_BASEPOINT_POINT);
+    acc!(vp_c_eight_torsion, [EdwardsPoint; 8], k::EIGHT_TORSION);
+    acc!(vp_c_basepoint_compressed, CompressedEdwardsY, k::ED25519_BASEPOINT_COMPRESSED);
+    acc!(vp_c_x25519_basepoint, MontgomeryPoint, k::X25519_BASEPOINT);
+    acc!(vp_c_ristretto_basepoint_compressed, CompressedRistretto, k::RISTRETTO_BASEPOINT_COMPRESSED);
+    acc!(vp_c_ristretto_basepoint, RistrettoPoint, k::RISTRETTO_BASEPOINT_POINT);
+    #[cfg(feature = "precomputed-tables")]
+    #[no_mangle] #[inline(never)] pub fn vp_c_basepoint_table() -> &'static crate::edwards::EdwardsBasepointTable { k::ED25519_BASEPOINT_TABLE }
+    #[cfg(feature = "precomputed-tables")]
+    #[no_mangle] #[inline(never)] pub fn vp_c_ristretto_basepoint_table() -> &'static crate::ristretto::RistrettoBasepointTable { k::RISTRETTO_BASEPOINT_TABLE }
+    #[cfg(feature = "precomputed-tables")]
+    acc!(vp_c_affine_odd_multiples, crate::window::NafLookupTable8<AffineNielsPoint>, k::AFFINE_ODD_MULTIPLES_OF_BASEPOINT);
+    #[cfg(all(curve25519_dalek_backend = "simd", feature = "precomputed-tables"))]
+    #[no_mangle] #[inline(never)] pub fn vp_c_avx2_odd_table() -> *const u8 { &crate::backend::vector::avx2::constants::BASEPOINT_ODD_LOOKUP_TABLE as *const _ as *const u8 }
+    #[cfg(all(curve25519_dalek_backend = "unstable_avx512", nightly, feature = "precomputed-tables"))]
+    #[no_mangle] #[inline(never)] pub fn vp_c_ifma_odd_table() -> *const u8 { &crate::backend::vector::ifma::constants::BASEPOINT_ODD_LOOKUP_TABLE as *const _ as *const u8 }
+    #[cfg(curve25519_dalek_backend = "simd")]
+    #[no_mangle] #[inline(never)] pub fn vp_c_avx2_misc(i: u32) -> *const u8 {
+        use crate::backend::vector::avx2::constants as a;
+        match i { 0 => &a::EXTENDEDPOINT_IDENTITY as *const _ as *const u8, 1 => &a::CACHEDPOINT_IDENTITY as *const _ as *const u8,
+                  2 => &a::P_TIMES_2_LO as *const _ as *const u8, 3 => &a::P_TIMES_2_HI as *const _ as *const u8,
+                  4 => &a::P_TIMES_16_LO as *const _ as *const u8, _ => &a::P_TIMES_16_HI as *const _ as *const u8 }
+    }
+}
